@@ -3,6 +3,7 @@ package main
 import (
 	"bytes"
 	"fmt"
+	"reflect"
 )
 
 func frameTypes() []*Type {
@@ -330,6 +331,32 @@ func init() {
 			if len(seqBuf) < 1<<20 {
 				seqBuf = append(seqBuf, r.Appended...)
 				seqWant = append(seqWant, fresh.Appended...)
+			}
+		}
+		// an extension the encoder filled in belongs to THAT message: changing it must not change what the next message
+		// with an absent extension encodes
+		for _, t := range schema.Types {
+			for i, op := range t.fieldOps() {
+				if op.K != "union" || t.Frame != nil || i >= len(t.Enc) || t.Enc[i].G != "mat" {
+					continue
+				}
+				for n, e := range schema.Tables[op.Tbl].Entries {
+					if n > 6 {
+						break
+					}
+					v := g.msgWithKey(t.ID, e, true)
+					v.Fs[i] = &Val{K: 'z'}
+					want := goEnc(v, nil, BufMode{})
+					obj1 := newObj(v)
+					guard(func() error { return callEncode(obj1, &bytes.Buffer{}) })
+					mutateObj(reflect.ValueOf(obj1)) // the caller edits the extension it was given
+					got := goEnc(v, nil, BufMode{})
+					if want.Class == "ok" && (got.Class != "ok" || !bytes.Equal(got.Appended, want.Appended)) {
+						o.violate(Violation{Property: "C06", Kind: "direct", What: "encoding a message with an absent extension depends on what an earlier caller did to the extension it was given",
+							Case: "enc - " + v.String(), Expected: hexOf(want.Appended), Observed: got.Class + " " + hexOf(got.Appended), Key: "shared-ext:" + t.QName()})
+						break
+					}
+				}
 			}
 		}
 		// a sequence of mixed messages into ONE real buffer
